@@ -2,6 +2,7 @@ import Driver.Proto
 import PqModel.Rle
 import PqModel.RleDecode
 import PqModel.RleBoolBytes
+import PqModel.BitPackedDecode
 
 namespace Driver.Ops.C04Rle
 open Driver PqModel.Rle
@@ -92,6 +93,11 @@ def handle (toks : List String) : Option String :=
     match parseNat? w, parseNat? n, parseHex? hex with
     | some w, some n, some bs => showVals (specDecodeBitPacked w n (bytesOf bs))
     | _, _, _ => "bad-op"
+  -- `bitpacked.godec <w> <hex>`: mirror of bitpacked.decodeLevels (all ceil(8*len/w) values)
+  | ["bitpacked.godec", w, hex] => some <|
+    match parseNat? w, parseHex? hex with
+    | some w, some bs => showVals (.ok (goDecodeBitPacked w (bytesOf bs)))
+    | _, _ => "bad-op"
   | ["bitpacked.enc", w, hex] => some <|
     match parseNat? w, parseHex? hex with
     | some w, some bs => showBytes (.ok (encodeBitPacked w (bytesOf bs)))
